@@ -120,7 +120,7 @@ class C15(Prop):
                 "getters": sum(1 for r in rows if r["role"] == "RGetter"), "setters": sum(1 for r in rows if r["role"] == "RSetter"),
                 "getter_setter_pairs": sum(1 for g, s in prs if g is not None),
                 "hand_modelled": sorted(f'{r["ty"]}::{r["method"]}' for r in rows if "CHand" in r["codec"] and r["role"] != "ROther"),
-                "unrecognised": sorted(f'{r["ty"]}::{r["method"]}' for r in rows if "Unrecognised" in r["codec"]),
+                "unrecognised": sorted(f'{r["ty"]}::{r["method"]}' for r in rows if "Unrecognised" in r["codec"] or r.get("unrecognised")),
                 "shipped_defect_rows": sorted(f'{r["ty"]}::{r["method"]}' for r in rows if ".shipped" in r["codec"] or r["op"] == "OInsert")}
 
     def streams(self, tier, rng):
